@@ -3,8 +3,9 @@
    configurations whose snippet values are well-formed abbreviations ([wf_cfg]: every value
    tokenizes, parses and yields a tree with stringifiable tokens -- decidable, and swept
    COMPLETELY over the regenerated built-in tables below).
-   The transformation pass (implicit tag, attribute merge, lorem header, xsl, label) is a total
-   function by construction: `transform_list` returns a plain list, no `res`. *)
+   The transformation pass (implicit tag, attribute merge, lorem header, xsl, label, BEM) returns `res`
+   since the BEM addon is modelled (its two raise sites are explicit Internal results); it is proved
+   total in proofs/BemProofs.v (transform_list_ok). *)
 From Coq Require Import List Bool Lia Arith ZArith.
 From Emmet Require Import lib.Base model.MarkupTokenizer model.MarkupParser model.MarkupConvert model.MarkupResolve
      gen.GenMarkupSnippets proofs.SafeConvert.
@@ -217,7 +218,8 @@ Qed.
 
 (* the fuel is really needed up to the table size: a chain of k snippets nests k deep (non-vacuity of the bound) *)
 Example resolve_chain_nonvacuous :
-  let cfg := mkMConfig [] [([97], [98]); ([98], [99]); ([99], [100])]%N [] WNone None None false None [] false false in
+  let cfg := mkMConfig [] [([97], [98]); ([98], [99]); ([99], [100])]%N [] WNone None None false None [] false false
+                       false [] [] None in
   wf_cfg cfg /\
   walk_resolve 4 cfg [] [ANode (Some [97]%N) None None None [] false] = Ok [ANode (Some [100]%N) None None None [] false] /\
   walk_resolve 3 cfg [] [ANode (Some [97]%N) None None None [] false] = OutOfFuel.
